@@ -137,10 +137,16 @@ VH_AREA(circq) {
                 // several indices in one query (the loop-skipping code keeps state between them): every returned entry is judged
                 // like a single query, and exactly the requested entries must come back
                 if (nd >= 2 && nd < 100000) {
-                    for (int rep = 0; rep < 3; rep++) {
+                    for (int rep = 0; rep < 4; rep++) {
                         std::set<uint64_t> want;
-                        size_t cnt = 2 + rng.below(4);
-                        for (size_t i = 0; i < cnt; i++) want.insert(rng.chance(0.3) ? (rng.chance(0.5) ? nd - 1 : 0) : rng.below(nd));
+                        if (rep == 3) {
+                            // every index at once (small circuits only)
+                            if (nd > 200) break;
+                            for (uint64_t i = 0; i < nd; i++) want.insert(i);
+                        } else {
+                            size_t cnt = 2 + rng.below(4);
+                            for (size_t i = 0; i < cnt; i++) want.insert(rng.chance(0.3) ? (rng.chance(0.5) ? nd - 1 : 0) : rng.below(nd));
+                        }
                         try {
                             auto m = c.get_detector_coordinates(want);
                             if (m.size() != want.size()) out_x("get_detector_coordinates returned " + std::to_string(m.size()) + " entries for " + std::to_string(want.size()) + " indices");
